@@ -1258,8 +1258,10 @@ def pair_lengths(pair):
                 k = 0
                 try:
                     world.start(n, op[0], **op[1])
-                    while world.busy(n) and k < 100:
-                        world.step_anchor(n)
+                    while world.busy(n) and k < 60:
+                        r, _ = world.step_anchor(n)
+                        if r == "blocked":      # (the other operation died holding a lock: seeded defect)
+                            break
                         k += 1
                 except (Violation, Drift):
                     pass
@@ -1301,7 +1303,9 @@ def _task(arg):
 # (C) real processes
 
 def stress_worker(root, name, seed, nops, quota, q):
-    """one real project process: real flock (blocking), no interposer"""
+    """one real project process: real flock (blocking), no interposer.
+    Failures whose cause is one of the defects that (B) reports deterministically under a stable signature are only
+    counted (their occurrence here depends on timing); every other exception is a violation."""
     out = {"name": name, "errors": [], "ops": 0, "classified": [], "installed": 0}
     try:
         common.use_repo()
@@ -1366,8 +1370,11 @@ def stress_worker(root, name, seed, nops, quota, q):
                     out["classified"].append("gc-on-store-without-repo-json")
                 elif isinstance(e, ValueError) and "Expecting value" in str(e):
                     out["classified"].append("repo-json-creation-window")
+                elif isinstance(e, BuildError) and "Corrupt meta info" in str(e) and "Expecting value" in str(e):
+                    out["classified"].append("use-reads-empty-pkg-json")
                 elif isinstance(e, BuildError) and "Error inspecting workspace" in str(e):
-                    out["classified"].append("gc-fails-user-link-vanished-during-check")
+                    out["classified"].append("gc-fails-user-link-vanished-during-check"
+                                             if (os.sep + "proj" + os.sep) in str(e) else "gc-fails-on-dangling-user-link")
                 else:
                     out["errors"].append(text + "\n" + traceback.format_exc()[-1200:])
     except BaseException as e:  # noqa
@@ -1396,6 +1403,7 @@ def stress(rep, seed, nproc, nops, rounds):
         outs = [q.get(timeout=600) for _ in procs]
         for p in procs:
             p.join(60)
+        round_classified = any(o["classified"] for o in outs)    # an operation died half way: leftovers are its consequence
         for o in outs:
             tot["ops"] += o["ops"]
             tot["installed"] += o["installed"]
@@ -1425,10 +1433,10 @@ def stress(rep, seed, nproc, nops, rounds):
             repo = json.load(open(os.path.join(store, "repo.json"))).get("pkgs", {})
         except (OSError, ValueError) as e:
             repo = "unreadable: %r" % e
-        if not tot["classified"] and repo != vis:
+        if not round_classified and repo != vis:
             rep.violation("stress-size-accounting-mismatch", {"recorded": repo, "installed": vis, "round": rd})
         left = [e for e in os.listdir(store) if e.startswith("tmp")]
-        if left and not tot["classified"]:
+        if left and not round_classified:
             rep.violation("stress-temporary-directory-left-in-store", {"left": left, "round": rd})
         for i in range(nproc):
             w = os.path.join(root, "proj", "P%d" % i, "dev", "dist", "pkg", "1", "workspace")
@@ -1550,7 +1558,8 @@ def main():
     import bob.share  # noqa: F401  (before fork)
     import bob.builder  # noqa: F401
     work = common.scratch("vf-c15cfg-")
-    pool = mp.get_context("fork").Pool(NW)
+    # (actors that are still parked when a behaviour ends stay behind as blocked daemon threads: recycle the workers)
+    pool = mp.get_context("fork").Pool(NW, maxtasksperchild=20)
     sigs = {}                    # signature -> [count, first detail]
 
     def note(sig, detail):
